@@ -13,11 +13,21 @@
   * `C07_matcher_is_paths`: the model matcher is the priority semantics the bounds are about;
     `C07_rep_bodies_nonnull`: no repetition body is nullable (CPython's empty-iteration guard
     never fires, so it need not be modelled).
+  * `C07_collectors_linear`: the token collectors (`_discard_contents`,
+    `_consume_balanced_tokens` and every loop of the shape "read one token, decide") run their
+    body exactly once per token they take from the stream: the number of iterations equals
+    the number of tokens consumed, no token is read twice.
+  * `C07_rules_make_progress` + `C07_lexer_total`: no rule of the regenerated table can match
+    the empty string and none has an unmodelled action, hence every call of `Lexer.token`
+    makes progress: it returns a token, reports a lexical error, or reaches the real end of the
+    input — the model's bound on the loop is never what ends it.
   Recorded assumption: CPython's `sre` takes no more steps than naive backtracking.  The
   parser's re-scans and trial parses are exercised by the timing oracle (not proof).
 -/
 import CxxModel.Cost
 import CxxModel.Gen.LexRules
+import CxxModel.Theorems.Stream
+import CxxModel.Theorems.LexTotal
 namespace Cxx
 
 def repBodiesNonNull : Re → Bool
@@ -50,5 +60,31 @@ example : polyOK (.rep (.alt (.chars false [(97, 97)]) (.seq (.chars false [(97,
 example : polyOK (.rep (.alt (.chars true [(42, 42)]) (.chars false [(13, 13), (10, 10)])) 0 none) = false := by decide
 /-- the largest degree over all rules (how polynomial "polynomial" is) -/
 example : (Gen.rules.map (fun r => (ccoef r.re).2)).foldl max 0 ≤ 6 := by decide +kernel
+
+
+/-- the number of tokens a run of the step function consumes -/
+theorem RunsTo.length_pos {σ α : Type} {step : σ → CTok → Except Err (σ ⊕ α)} {s : σ} {cts : List CTok} {a : α}
+    (h : RunsTo step s cts a) : 0 < cts.length := by
+  cases h <;> simp
+
+theorem C07_collectors_linear (env : Env) {σ α : Type} (step : σ → CTok → Except Err (σ ⊕ α))
+    (F : Nat) (s : σ) (w w' : World) (a : α)
+    (h : interp env (P.loopN F s (fun s => do let tok ← P.token; P.liftE (step s tok))) w = (w', .ok a)) :
+    ∃ (ts : List Tok) (cts : List CTok), Yields env.cfg w.buf ts w'.buf ∧ RunsTo step s cts a ∧
+      cts.length = ts.length ∧ 0 < ts.length := by
+  obtain ⟨ts, cts, hy, _, htv, hr⟩ := tokLoop_contiguous env step F s w w' a h
+  have hl : cts.length = ts.length := by
+    have := congrArg List.length htv
+    simpa using this
+  exact ⟨ts, cts, hy, hr, hl, by rw [← hl]; exact hr.length_pos⟩
+
+
+def genCfg7 : LexCfg := { rules := Gen.rules, literals := Gen.literals, ignore := Gen.ignore, keywords := Gen.keywords }
+
+theorem C07_rules_make_progress : RulesProgress genCfg7 = true := by decide +kernel
+
+theorem C07_lexer_total (st : LexState) :
+    plyTokenF genCfg7 st ≠ .opaque ∧ (∀ st', plyTokenF genCfg7 st = .eof st' → st'.rest = []) :=
+  plyTokenF_total genCfg7 C07_rules_make_progress st
 
 end Cxx
